@@ -537,3 +537,8 @@ MUTANTS += [
  {"id": "c08-lowest-one-too-many", "prop": "C08", "file": _IX, "old": "    return [s for s in idx if s not in used][:n]", "new": "    return [s for s in idx if s not in used][:n + 1]"},
  {"id": "c08-lowest-reversed-letters", "prop": "C08", "file": _IX, "old": "        idx.extend(s + str(suffix) for s in base)\n        suffix += 1", "new": "        idx.extend(s + str(suffix) for s in reversed(base))\n        suffix += 1"},
 ]
+MUTANTS += [
+ {"id": "c06-makereal-and-instead-of-or", "prop": "C06", "file": _EC, "old": "        if tensor_names.fock not in sym_tensors or \\\n                tensor_names.eri not in sym_tensors:", "new": "        if tensor_names.fock not in sym_tensors and \\\n                tensor_names.eri not in sym_tensors:"},
+ {"id": "c06-setsym-not-applied", "prop": "C06", "file": _EC, "old": "        if sym_tensors != self._sym_tensors:\n            self._sym_tensors = sym_tensors\n            self._apply_tensor_braket_sym()", "new": "        if sym_tensors != self._sym_tensors:\n            self._sym_tensors = sym_tensors"},
+ {"id": "c06-setsym-forgets-real", "prop": "C06", "file": _EC, "old": "        sym_tensors: set = set(sym_tensors)\n        if self.real:\n            sym_tensors.update([tensor_names.fock, tensor_names.eri])", "new": "        sym_tensors: set = set(sym_tensors)"},
+]
